@@ -101,7 +101,7 @@ func (*PacketFiller) Fill(packet gopacket.SerializeBuffer, r *scan.Request) erro
 		ProtAddressSize:   uint8(4),
 		Operation:         layers.ARPRequest,
 		SourceHwAddress:   r.SrcMAC,
-		SourceProtAddress: r.SrcIP,
+		SourceProtAddress: r.SrcIP.To4(),
 		DstHwAddress:      net.HardwareAddr{0x00, 0x00, 0x00, 0x00, 0x00, 0x00},
 		DstProtAddress:    r.DstIP.To4(),
 	}
